@@ -670,6 +670,12 @@ func WithOperatorVersion(v string) ExecutorOption {
 	}
 }
 
+// partial reports if the revision was applied only partially and was not resolved manually since
+// (e.g. by 'atlas migrate set'). A resolved revision is considered applied.
+func (r *Revision) partial() bool {
+	return r.Applied != r.Total && !r.Type.Has(RevisionTypeResolved)
+}
+
 // Pending returns all pending (not fully applied) migration files in the migration directory.
 func (e *Executor) Pending(ctx context.Context) ([]File, error) {
 	// Don't operate with a broken migration directory.
@@ -717,7 +723,7 @@ func (e *Executor) Pending(ctx context.Context) ([]File, error) {
 			return nil, err
 		}
 	// In case we applied a checkpoint, but it was only partially applied.
-	case revs[len(revs)-1].Applied != revs[len(revs)-1].Total && len(all) > 0:
+	case revs[len(revs)-1].partial() && len(all) > 0:
 		if idx, found := slices.BinarySearchFunc(all, revs[len(revs)-1], func(f File, r *Revision) int {
 			return strings.Compare(f.Version(), r.Version)
 		}); found {
@@ -735,7 +741,7 @@ func (e *Executor) Pending(ctx context.Context) ([]File, error) {
 	case len(migrations) > 0:
 		var (
 			last      = revs[len(revs)-1]
-			partially = last.Applied != last.Total
+			partially = last.partial()
 			fn        = func(f File) bool { return f.Version() <= last.Version }
 		)
 		if partially {
@@ -756,7 +762,7 @@ func (e *Executor) Pending(ctx context.Context) ([]File, error) {
 			return migrations, nil
 		}
 		// If this file was not partially applied, take the next one.
-		if last.Applied == last.Total {
+		if !partially {
 			idx++
 		}
 		pending = migrations[idx:]
